@@ -591,15 +591,16 @@ theorem iup_shift_eq (ax : Bool) (pts : List ZPt) (p1 p2 p : Nat) (hall : ∀ q 
       · have hin' : ¬ ((p1 ≤ i ∧ i < p) ∨ (p + 1 ≤ i ∧ i ≤ p2)) := fun h => hin (hc.mpr h)
         simp only [hin, hin', if_false]
 
-/- **IUP as a whole** (`Zone::iup` = `Ins_IUP`): NOT proved.  What is proved: the two contour walks are the
-   same control flow on the touch flags (`skipUntouched_eq` in Lemmas/InterpEq.lean; `walkTouched` /
-   `iupContour` are the same recursion around `iupInterpolate` / `iupShift`), and every call they make is
-   equal on a zone in range (`iup_interpolate_eq`, `iup_shift_eq`).  FULL statement:
-     ∀ ax pts ends, (∀ p ∈ pts, ZPos29 p) → (interpolation terms within ±2^30) →
-       HintInterp.iup ax pts ends = some (FtInterp.iup ax pts ends)
-   missing: the invariant that the calls of one walk only write untouched points and only read the
-   current position of touched ones (so that the range hypothesis survives from call to call).  Both
-   complete functions are executed against both real interpreters by the generated programs of layer J
-   (every program ends with `IUP[x] IUP[y]`) and by the `iup` threshold-edge family. -/
+/-! ### UTP, FLIPPT, FLIPRGON / FLIPRGOFF (flag-only instructions) -/
+
+/-- **UTP**: the same flags are cleared (along the non-zero components of the freedom vector). -/
+theorem utp_eq (fv : Vec) (p : ZPt) : HintInterp.utp fv p = FtInterp.utp fv p := rfl
+
+/-- **FLIPPT** (one point) and **FLIPRGON / FLIPRGOFF** (inclusive range): same on-curve flags.  What
+happens to the arguments of a FLIPPT that backward compatibility blocks is part of the step functions
+(fix 2e3eaf9). -/
+theorem flip_eq (p : ZPt) (pts : List ZPt) (lo hi : Nat) (on : Bool) :
+    HintInterp.flipPt p = FtInterp.flipPt p ∧ HintInterp.flipRange pts lo hi on = FtInterp.flipRange pts lo hi on :=
+  ⟨rfl, rfl⟩
 
 end FontVerif.C03
